@@ -383,6 +383,7 @@ def main_for(prop):
         check_instruction_class(ctx, prop, "instruction_with_second_token", G.G_OPS, "ins_ops", ("COLOUR",))
         check_instruction_class(ctx, prop, "instruction_single_token", G.G_NOOPS, "ins_noops", ("COLOUR",))
         check_instruction_class(ctx, prop, "branch_with_hint", G.G_OPS_HINT, "ins_hint", ("COLOUR",))
+        check_instruction_class(ctx, prop, "instruction_single_token_with_comment", G.G_NOOPS_COMMENT, "ins_noops_comment", ("COLOUR",))
         check_instruction_class(ctx, prop, "instruction_with_second_token_no_byte_column", G.G_OPS_NOBYTES, "nobytes_ops", ("COLOUR",))
         check_instruction_class(ctx, prop, "instruction_single_token_no_byte_column", G.G_NOOPS_NOBYTES, "nobytes_noops", ("COLOUR",))
         for kind, segs in G.NONINSTR.items():
@@ -444,9 +445,14 @@ def c08_extra(ctx):
     hs = [h for h in c09.harnesses(tier()) if not h.name.startswith("c09/compose")]
     for h in hs:
         h.key = "parser_fails_" + h.key
-    from checks import leafharness
+    from checks import leafharness, c18
 
     hs += leafharness.c08_plumbing(tier())
+    # byte-continuation pseudo instructions are dropped whatever other observers are installed
+    chain = [h for h in c18.harnesses(tier()) if h.name == "c18/chain"]
+    for h in chain:
+        h.key = "filter_chain"
+    hs += chain
     ch.run_harnesses(run, hs)
 
 
@@ -508,6 +514,15 @@ def c10_extra(ctx):
 
 def c16_extra(ctx):
     run = ctx.run
+    from checks import c18
+    from vlib import ch
+
+    # wrapping a long instruction over a byte-continuation line must not add anything to the stream,
+    # also when the rule configures an address range (a second observer in the chain)
+    chain = [h for h in c18.harnesses(tier()) if h.name == "c18/chain"]
+    for h in chain:
+        h.key = "filter_chain"
+    ch.run_harnesses(run, chain)
     # a label line is never an instruction whatever its symbol text (arbitrary printable symbol)
     seg = [(0, "[0-9a-f]{1,16} <[ -~]*>:")]
     check_noninstruction(ctx, "label_any_symbol", seg, "non_label")
